@@ -13,12 +13,15 @@ use std::{
 use tokio::sync::{OwnedSemaphorePermit, Semaphore, mpsc, oneshot};
 
 use super::{
-    PortReq,
+    PortReq, PortsExhausted,
     port_allocator::{PortAllocator, PortNumber},
     receiver::Receiver,
     sender::Sender,
 };
-use crate::{exec, exec::task::JoinHandle};
+use crate::{
+    exec,
+    exec::{task::JoinHandle, time::timeout},
+};
 
 /// An error occurred during connecting to a remote service.
 #[derive(Debug, Clone)]
@@ -166,6 +169,7 @@ pub struct Client {
     port_allocator: PortAllocator,
     listener_dropped: Arc<AtomicBool>,
     terminate_tx: mpsc::UnboundedSender<()>,
+    ports_exhausted: PortsExhausted,
 }
 
 impl fmt::Debug for Client {
@@ -177,7 +181,7 @@ impl fmt::Debug for Client {
 impl Client {
     pub(crate) fn new(
         tx: mpsc::UnboundedSender<ConnectRequest>, limit: u16, port_allocator: PortAllocator,
-        listener_dropped: Arc<AtomicBool>, terminate_tx: mpsc::UnboundedSender<()>,
+        listener_dropped: Arc<AtomicBool>, terminate_tx: mpsc::UnboundedSender<()>, ports_exhausted: PortsExhausted,
     ) -> Client {
         Client {
             tx,
@@ -185,6 +189,7 @@ impl Client {
             port_allocator,
             listener_dropped,
             terminate_tx,
+            ports_exhausted,
         }
     }
 
@@ -195,9 +200,21 @@ impl Client {
 
     /// Connects to a newly allocated remote port from a newly allocated local port.
     ///
-    /// This function waits until a local and remote port become available.
+    /// If no local or remote port is available, this function fails or waits as configured by
+    /// [Cfg::ports_exhausted](super::Cfg::ports_exhausted).
     pub async fn connect(&self) -> Result<(Sender, Receiver), ConnectError> {
-        self.connect_ext(None, true).await?.await
+        match self.ports_exhausted {
+            PortsExhausted::Fail => self.connect_ext(None, false).await?.await,
+            PortsExhausted::Wait(None) => self.connect_ext(None, true).await?.await,
+            PortsExhausted::Wait(Some(dur)) => {
+                // Wait for a local and then for a remote port, each within the time limit.
+                let local_port = timeout(dur, self.port_allocator.allocate())
+                    .await
+                    .map_err(|_| ConnectError::LocalPortsExhausted)?;
+                let connect = self.connect_ext(Some(local_port.into()), true).await?;
+                timeout(dur, connect).await.map_err(|_| ConnectError::RemotePortsExhausted)?
+            }
+        }
     }
 
     /// Start opening a new port to the remote endpoint with extended options.
